@@ -651,15 +651,32 @@ pub fn build<'t>(g: &G, env: &Env<'t>) -> P<'t> {
             let mut p = maybe(bx(a));
             Box::new(move |l, c| p(l, c).map_value(opt))
         }
+        // The predicates answer `flag` only while their combinator is being applied; asked at any
+        // other time (when the combinator is built, say) they answer the opposite: a predicate is a
+        // function the combinator must call when it parses, its answer may change between calls.
         RequireIf(flag, a) => {
             let flag = *flag;
-            let mut p = require_if(move || flag, bx(a));
-            Box::new(move |l, c| p(l, c).map_value(opt))
+            let live = Rc::new(std::cell::Cell::new(false));
+            let live2 = live.clone();
+            let mut p = require_if(move || if live2.get() { flag } else { !flag }, bx(a));
+            Box::new(move |l, c| {
+                live.set(true);
+                let r = p(l, c);
+                live.set(false);
+                r.map_value(opt)
+            })
         }
         Cond(flag, a) => {
             let flag = *flag;
-            let mut p = cond(move || flag, bx(a));
-            Box::new(move |l, c| p(l, c).map_value(opt))
+            let live = Rc::new(std::cell::Cell::new(false));
+            let live2 = live.clone();
+            let mut p = cond(move || if live2.get() { flag } else { !flag }, bx(a));
+            Box::new(move |l, c| {
+                live.set(true);
+                let r = p(l, c);
+                live.set(false);
+                r.map_value(opt)
+            })
         }
         Implies(a, b) => {
             let mut p = implies(bx(a), bx(b));
